@@ -1,5 +1,6 @@
 mod orch;
 mod proc;
+mod readers;
 mod prop;
 mod util;
 mod worker;
